@@ -82,6 +82,9 @@ class Check:
             print("KNOWN-FINDING: property=%s %s %s" % (self.pid, k, self.known_hit[k]))
         if self.violations:
             os.makedirs(REPLAY_DIR, exist_ok=True)
+            with open(os.path.join(REPLAY_DIR, "%s_all_violation_keys.txt" % self.pid), "w") as f:
+                for key, what, replay in self.violations:
+                    f.write("%s :: %s\n" % (key, what))
             seen = set()
             n = 0
             for key, what, replay in self.violations:
